@@ -65,6 +65,16 @@ pub(crate) struct Ghost {
     pub upgrade_result: [u8; MAX_OBJ],
     /// is_tracing / flags as seen by the latest finalize / drop callback
     pub collect_calls_in_cb: u16,
+    /// collector flags seen by the latest finalize / drop callback (bit0 collecting, bit1 finalizing, bit2 dropping)
+    pub fin_flags: u8,
+    pub drop_flags: u8,
+    /// finalize callback entered while the object's finalized bit was still clear (C05: flag first)
+    pub fin_bit_unset_in_cb: u16,
+    /// destructor entered while the object was not yet marked dropped (C08, weak-ptrs only)
+    pub drop_not_marked_dropped: u16,
+    /// strong count / mark seen by the latest finalize and drop callback of each object
+    pub fin_seen_count: [u16; MAX_OBJ],
+    pub drop_seen_count: [u16; MAX_OBJ],
 }
 
 pub(crate) static mut G: Ghost = Ghost::new();
@@ -102,6 +112,12 @@ impl Ghost {
             act_target: [0; MAX_OBJ],
             upgrade_result: [0; MAX_OBJ],
             collect_calls_in_cb: 0,
+            fin_flags: 0,
+            drop_flags: 0,
+            fin_bit_unset_in_cb: 0,
+            drop_not_marked_dropped: 0,
+            fin_seen_count: [0; MAX_OBJ],
+            drop_seen_count: [0; MAX_OBJ],
         }
     }
 }
